@@ -198,6 +198,19 @@ func (m *c12model) exprType(e influxql.Expr, src influxql.Sources) influxql.Data
 			return influxql.Float
 		case l == influxql.Integer && r == influxql.Integer:
 			return influxql.Integer
+		case l == influxql.Unsigned && r == influxql.Unsigned:
+			return influxql.Unsigned
+		case l == influxql.Unsigned && r == influxql.Float, l == influxql.Float && r == influxql.Unsigned:
+			return influxql.Float
+		case l == influxql.Unsigned && r == influxql.Integer:
+			// an integer literal adapts to an unsigned operand, on either side
+			if _, lit := e.RHS.(*influxql.IntegerLiteral); lit {
+				return influxql.Unsigned
+			}
+		case l == influxql.Integer && r == influxql.Unsigned:
+			if _, lit := e.LHS.(*influxql.IntegerLiteral); lit {
+				return influxql.Unsigned
+			}
 		}
 		return influxql.Unknown
 	case *influxql.NumberLiteral:
@@ -514,7 +527,8 @@ func c12GenSelectAt(rg *mon.Rng, depth int, top bool) string {
 			if !top && rg.P(0.4) {
 				// arithmetic over explicitly typed integer / float operands, under
 				// an alias: a column of the subquery whose type the model knows
-				f = rg.Pick("f0::integer / f1::integer", "f0::integer + f1::float", "f0::float * 2", "f2::integer % f0::integer", "(f0::integer - 1)", "f1::integer / 2", "f1::float / f0::float", "f0::integer * f1::integer - f2::integer") + " AS q" + fmt.Sprint(i)
+				f = rg.Pick("f0::integer / f1::integer", "f0::integer + f1::float", "f0::float * 2", "f2::integer % f0::integer", "(f0::integer - 1)", "f1::integer / 2", "f1::float / f0::float", "f0::integer * f1::integer - f2::integer",
+					"f0::unsigned + 5", "5 + f0::unsigned", "2 * f1::unsigned", "f1::unsigned / 2", "f0::unsigned * f1::unsigned", "f0::unsigned + f1::float", "1.5 * f2::unsigned", "7 % f0::unsigned", "(3 + f1::unsigned) * 2", "f0::unsigned & 255", "255 | f2::unsigned") + " AS q" + fmt.Sprint(i)
 			}
 			if top && rg.P(0.4) {
 				// arithmetic fields only at the top level: their output type as a
